@@ -338,8 +338,14 @@ func (e *Engine) callMods(fn *ssa.Function, call *ssa.CallCommon, ms *ModSet, fr
 	}
 	// closures passed as arguments may be invoked by the callee
 	for _, a := range call.Args {
-		if mc, ok := a.(*ssa.MakeClosure); ok {
-			ms.union(e.calleeMods(mc.Fn.(*ssa.Function)), false)
+		for _, cfn := range closureCandidates(a) {
+			ms.union(e.calleeMods(cfn), false)
+		}
+	}
+	// a function value called directly: closures stored in a local
+	if _, isFn := call.Value.(*ssa.Function); !isFn && !call.IsInvoke() {
+		for _, cfn := range closureCandidates(call.Value) {
+			ms.union(e.calleeMods(cfn), false)
 		}
 	}
 }
@@ -504,6 +510,9 @@ func (f *Frame) applyModSetFrame(st *State, pre *State, ms *ModSet, frameMark *T
 	for _, g := range gs {
 		if cur, ok := st.ghost[g]; ok {
 			st.ghost[g] = fresh("gh_"+g, cur.Sort)
+			if gd := f.eng.db.Ghosts[g]; gd != nil && gd.Monotone && cur.Sort == sortInt {
+				f.addHyp(tTrue(), tGe(st.ghost[g], cur))
+			}
 		}
 	}
 	if len(ms.heaps) > 0 {
@@ -579,4 +588,39 @@ func (e *Engine) writesThroughIface(c *Contract, call *ssa.CallCommon, ms *ModSe
 			}
 		}
 	}
+}
+
+// closureCandidates: function literals a value may denote (directly, or via a local variable).
+func closureCandidates(v ssa.Value) []*ssa.Function {
+	return closureCands(v, map[ssa.Value]bool{})
+}
+
+func closureCands(v ssa.Value, seen map[ssa.Value]bool) []*ssa.Function {
+	if seen[v] {
+		return nil
+	}
+	seen[v] = true
+	switch x := v.(type) {
+	case *ssa.MakeClosure:
+		return []*ssa.Function{x.Fn.(*ssa.Function)}
+	case *ssa.Function:
+		if x.Parent() != nil {
+			return []*ssa.Function{x}
+		}
+	case *ssa.UnOp:
+		if x.Op == token.MUL {
+			if a, ok := x.X.(*ssa.Alloc); ok {
+				var out []*ssa.Function
+				for _, r := range *a.Referrers() {
+					if st, ok := r.(*ssa.Store); ok && st.Addr == a {
+						out = append(out, closureCands(st.Val, seen)...)
+					}
+				}
+				return out
+			}
+		}
+	case *ssa.ChangeType:
+		return closureCands(x.X, seen)
+	}
+	return nil
 }
